@@ -53,6 +53,11 @@ def stock_target(xml, shared=True):
     return dict(args=args, prefix=pre, ns='GEN', schema=xml, fixt=fixt, extra=None, realm=True, shared=shared, second=False)
 
 
+def custom_target(xml_abs, prefix, ns='CU'):
+    """a schema outside the repository (checker self-tests, triage inputs); FIX4.x style, second pass only"""
+    return dict(args=['-s', '-p', prefix, '-n', ns, xml_abs], prefix=prefix, ns=ns, schema=xml_abs, fixt=None, extra=None, realm=True, shared=True, second=True)
+
+
 def _gen_root():
     return os.path.join(CACHE, tree_key(), 'gen')
 
@@ -99,7 +104,7 @@ def generate(names_or_targets):
                 os.makedirs(out)
                 args = []
                 for a in t['args']:
-                    args.append(os.path.join(scratch, a) if a.startswith('schema/') or a.startswith('test/') else a)
+                    args.append(os.path.join(REPO, a) if a.startswith('schema/') or a.startswith('test/') else a)      # schemas are inputs: read in place (absolute paths as given)
                 for extra in ('test/FIX44.xml', 'test/FIX44TEST.xml'):
                     pass
                 p = subprocess.run([f8c] + args + ['-o', out], capture_output=True, text=True, env=env, cwd=out)
